@@ -35,6 +35,11 @@ READ = ['vpH_read_L_MsgReadIndex', 'vpH_read_L_MsgHeartbeatResp']
 READ_J = ['vpH_read_L_MsgHeartbeatResp_joint']
 READ_SINGLETON = ['vpH_read_L_MsgReadIndex_singleton']
 RAW = ['vpH_raw_Ready_sync_F', 'vpH_raw_Ready_sync_C', 'vpH_raw_Ready_sync_L', 'vpH_raw_Ready_async_F', 'vpH_raw_Ready_async_C', 'vpH_raw_Ready_async_L']
+RAW_SYNC_Q = ['vpH_raw_Ready_sync_F', 'vpH_raw_Ready_sync_L']
+RAW_ASYNC_Q = ['vpH_raw_Ready_async_F', 'vpH_raw_Ready_async_L']
+RAW_APPLY_Q = ['vpH_raw_ReadyApply_sync_F', 'vpH_raw_ReadyApply_async_F']
+RAW_SNAP = ['vpH_raw_ReadySnap_sync_F', 'vpH_raw_ReadySnap_async_F']
+RAW_ALL = RAW + RAW_APPLY_Q + ['vpH_raw_ReadyApply_sync_L'] + RAW_SNAP
 RAW_ADV = ['vpH_raw_ReadyAdvance_F', 'vpH_raw_ReadyAdvance_C', 'vpH_raw_ReadyAdvance_L']
 RESTART = ['vpH_raw_Restart_2']
 ELECTION = ['vpH_raw_Election_sync', 'vpH_raw_Election_async']
@@ -98,8 +103,8 @@ prop("C13",
 
 # ---------------- step-obligation properties ----------------
 prop("C07",
-     H(VOTE + VRESP + HUP + HB + APP[:1] + SNAP[:1] + PROP_Q + LEAD + LEAD_ACK_Q[:1] + SMALL, ["H1/", "H2/"]) + H(RAW[:1] + RAW[2:4], ["H3/"]) + H(RESTART, ["H4/"]) + H(CONF[2:], ["H1/"]),
-     H(T(ALL_STEP + LEAD_ACK + APP_L + SNAP_L), ["H1/", "H2/"]) + H(RAW, ["H3/"]) + H(['vpH_raw_Restart_3'], ["H4/"]) + H(ACK + CONF[2:], ["H1/", "H2/"]),
+     H(VOTE + VRESP + HUP + HB + APP[:1] + SNAP[:1] + PROP_Q + LEAD + LEAD_ACK_Q[:1] + SMALL, ["H1/", "H2/"]) + H(RAW_SYNC_Q + RAW_ASYNC_Q[:1], ["H3/"]) + H(RESTART, ["H4/"]) + H(CONF[2:], ["H1/"]),
+     H(T(ALL_STEP + LEAD_ACK + APP_L + SNAP_L), ["H1/", "H2/"]) + H(RAW_ALL, ["H3/"]) + H(['vpH_raw_Restart_3'], ["H4/"]) + H(ACK + CONF[2:], ["H1/", "H2/"]),
      BQ + BT + OUT,
      "H1: term and commit never decrease and the vote changes at most once per term, on every (role x message type) cell; H2: every emitted message carries the current term (grants echo the request term, pre-vote requests Term+1), never one below a term already exposed; H3: Ready exposes the HardState iff it changed and remembers it; H4: restart restores (term, vote, commit) from storage.")
 
@@ -134,26 +139,26 @@ prop("C04",
      "Local premises of leader completeness: E2 votes only to up-to-date logs, E3 election quorum, Q1 only own-term entries are committed by counting, N1 a new leader keeps its log and appends one empty entry, N2 the committed prefix is immutable on every node.")
 
 prop("C01",
-     H(APP[:1] + SNAP[:1] + HB[:1] + LEAD, ["N2/", "M1/", "M3/", "Q1/", "Q3/", "S1/"]) + H(VOTE[:1] + VRESP[:1], ["E2/", "E3/"]) + H(RAW[:1] + RAW[3:4], ["A1/", "A2/", "D2/", "D3/"]),
-     H(T(APP + SNAP + HB + LEAD + LEAD_ACK), ["N2/", "M1/", "M3/", "Q1/", "Q3/", "S1/"]) + H(T(VOTE + VRESP), ["E2/", "E3/"]) + H(RAW + RAW_ADV, ["A1/", "A2/", "D2/", "D3/"]),
+     H(APP[:1] + SNAP[:1] + HB[:1] + LEAD, ["N2/", "M1/", "M3/", "Q1/", "Q3/", "S1/"]) + H(VOTE[:1] + VRESP[:1], ["E2/", "E3/"]) + H(RAW_SYNC_Q[:1] + RAW_ASYNC_Q[:1] + RAW_APPLY_Q, ["A1/", "A2/", "D2/", "D3/"]),
+     H(T(APP + SNAP + HB + LEAD + LEAD_ACK), ["N2/", "M1/", "M3/", "Q1/", "Q3/", "S1/"]) + H(T(VOTE + VRESP), ["E2/", "E3/"]) + H(RAW_ALL + RAW_ADV, ["A1/", "A2/", "D2/", "D3/"]),
      BQ + BT + OUT,
      "No obligation of its own: a selection of the step obligations the state-machine-safety argument rests on (committed prefix immutable, the apply stream is the contiguous committed log, follower append, leader append-only, quorum-backed commit, truthful acknowledgements, vote rule, election quorum, snapshot install). The cluster-wide statement is their composition and is not mechanised.")
 
 prop("C05",
-     H(APP[:1] + VOTE[:1] + SNAP[:1] + PROP_Q[3:] + HUP[:1] + VRESP[:1], ["D1/"]) + H(RAW[:1] + RAW[2:3], ["D2/", "W5/"]) + H(RAW[3:4] + RAW[5:6], ["D3/"]) + H(RAW_ADV[:1] + RAW_ADV[2:], ["D2/", "D4/", "W5/"]) + H(RESTART, ["H4/", "A4/"]),
-     H(T(ALL_STEP + LEAD_ACK), ["D1/"]) + H(RAW, ["D2/", "D3/", "W5/"]) + H(RAW_ADV, ["D2/", "D4/", "W5/"]) + H(['vpH_raw_Restart_3'], ["H4/", "A4/"]),
+     H(APP[:1] + VOTE[:1] + SNAP[:1] + PROP_Q[3:] + HUP[:1] + VRESP[:1], ["D1/"]) + H(RAW_SYNC_Q + RAW_SNAP[:1], ["D2/", "W5/"]) + H(RAW_ASYNC_Q + RAW_SNAP[1:], ["D3/"]) + H(RAW_ADV[:1] + RAW_ADV[2:], ["D2/", "D4/", "W5/"]) + H(RESTART, ["H4/", "A4/"]),
+     H(T(ALL_STEP + LEAD_ACK), ["D1/"]) + H(RAW_ALL, ["D2/", "D3/", "W5/"]) + H(RAW_ADV, ["D2/", "D4/", "W5/"]) + H(['vpH_raw_Restart_3'], ["H4/", "A4/"]),
      BQ + BT + "Ready cells: <= 1 pending ordinary message, <= 2 pending promises (self-addressed or not), optional read state; the synchronous cells persist the Ready with the real MemoryStorage and compare storage with the logical log. Crash points: batch boundaries only (DESIGN C05-D5). " + OUT,
      "D1 promises (MsgAppResp, MsgVoteResp, MsgPreVoteResp) and self-addressed messages are only ever queued behind persistence, D2 a synchronous Ready carries everything unstable and, once persisted, storage covers the whole logical log and the HardState behind every promise, D3 an asynchronous Ready releases promises only as Responses of the MsgStorageAppend, D4 the leader's own Match rises only through its persisted self-acknowledgement.")
 
 prop("C08",
-     H(RAW[:1] + RAW[2:4] + RAW[5:6], ["A1/", "A2/", "A3/"]) + H(RAW_ADV[:1] + RAW_ADV[2:], ["A2/"]) + H(ACK[:2], ["A5/", "A2/"]) + H(RESTART, ["A4/"]) + H(APP[:1] + SNAP[:1] + LEAD[:1], ["A2/"]),
-     H(RAW, ["A1/", "A2/", "A3/"]) + H(RAW_ADV, ["A2/"]) + H(ACK[:3], ["A5/", "A2/"]) + H(['vpH_raw_Restart_3'], ["A4/"]) + H(T(ALL_STEP), ["A2/"]),
+     H(RAW_APPLY_Q + RAW_SNAP + RAW_SYNC_Q[1:] + RAW_ASYNC_Q[:1], ["A1/", "A2/", "A3/"]) + H(RAW_ADV[:1] + RAW_ADV[2:], ["A2/"]) + H(ACK[:2], ["A5/", "A2/"]) + H(RESTART, ["A4/"]) + H(APP[:1] + SNAP[:1] + LEAD[:1], ["A2/"]),
+     H(RAW_ALL, ["A1/", "A2/", "A3/"]) + H(RAW_ADV, ["A2/"]) + H(ACK[:3], ["A5/", "A2/"]) + H(['vpH_raw_Restart_3'], ["A4/"]) + H(T(ALL_STEP), ["A2/"]),
      BQ + BT + OUT,
      "A1 Ready hands out exactly the contiguous committed entries after `applying` (maximal prefix within the size quota, only stable entries in async mode), A2 applied/applying never move back and consecutive batches abut, A3 nothing is handed out while a snapshot is pending, A4 restart resumes right after Config.Applied, A5 apply acknowledgements.")
 
 prop("C09",
-     H(SNAP, ["S1/"]) + H(LEAD[:1] + LEAD_HBR_Q + LEAD_ACK_Q[1:] + step('L', 'MsgSnapStatus'), ["S3/", "S4/", "L4/no-append"]) + H(RAW[:1], ["S2/"]) + H(ACK[3:4], ["S2/"]) + H(['vpH_log_unstableOps_1_2'], ["S1/"]),
-     H(T(SNAP + SNAP_L), ["S1/"]) + H(T(LEAD + LEAD_HBR + LEAD_ACK), ["S3/", "S4/", "L4/no-append"]) + H(RAW[:1] + RAW[3:4] + RAW_ADV[:1], ["S2/"]) + H(ACK[3:4], ["S2/"]) + H(['vpH_log_unstableOps_2_2'], ["S1/"]),
+     H(SNAP, ["S1/"]) + H(LEAD[:1] + LEAD_HBR_Q + LEAD_ACK_Q[1:] + step('L', 'MsgSnapStatus'), ["S3/", "S4/", "L4/no-append"]) + H(RAW_SNAP, ["S2/"]) + H(ACK[3:4], ["S2/"]) + H(['vpH_log_unstableOps_1_2'], ["S1/"]),
+     H(T(SNAP + SNAP_L), ["S1/"]) + H(T(LEAD + LEAD_HBR + LEAD_ACK), ["S3/", "S4/", "L4/no-append"]) + H(RAW_SNAP + RAW_ADV[:1], ["S2/"]) + H(ACK[3:4], ["S2/"]) + H(['vpH_log_unstableOps_2_2'], ["S1/"]),
      BQ + BT + "MsgSnap cells: snapshot index/term symbolic, ConfState from the shape menu (10 shapes), pending unstable snapshot allowed. " + OUT,
      "S1 a snapshot at or below the commit index, without this node, or matching the log changes nothing but (for a match) the commit index; otherwise it replaces the log, commit index and configuration exactly; S2 persistence handshake; S3 the leader sends the storage snapshot only for a compacted prefix and tracks it; S4 snapshot status handling.")
 
@@ -189,8 +194,8 @@ prop("C20",
      "P1 an accepted proposal appends exactly the proposed entries (payload, type, order) once, as copies, P2 a dropped proposal changes nothing, P3 non-leaders forward the same entries once or drop.")
 
 prop("C14",
-     H(VOTE + VRESP[:4] + HUP + HB + APP[:1] + SNAP[:1] + PROP_Q + LEAD + LEAD_ACK_Q[:1] + SMALL, ["Inv/"], panics=True) + H(RAW[:1] + RAW[3:4] + RESTART + CONF[2:] + ACK[:1] + ACK[3:4], ["Inv/"], panics=True),
-     H(T(ALL_STEP + LEAD_ACK + APP_L + SNAP_L), ["Inv/"], panics=True) + H(RAW + RAW_ADV + ['vpH_raw_Restart_3'] + CONF + ACK + TICK, ["Inv/"], panics=True) + H(LOG_T + TRACK_T, ["C18/", "C16/"], panics=True),
+     H(VOTE + VRESP[:4] + HUP + HB + APP[:1] + SNAP[:1] + PROP_Q + LEAD + LEAD_ACK_Q[:1] + SMALL, ["Inv/"], panics=True) + H(RAW_SYNC_Q + RAW_ASYNC_Q[:1] + RAW_SNAP + RESTART + CONF[2:] + ACK[:1] + ACK[3:4], ["Inv/"], panics=True),
+     H(T(ALL_STEP + LEAD_ACK + APP_L + SNAP_L), ["Inv/"], panics=True) + H(RAW_ALL + RAW_ADV + ['vpH_raw_Restart_3'] + CONF + ACK + TICK, ["Inv/"], panics=True) + H(LOG_T + TRACK_T, ["C18/", "C16/"], panics=True),
      BQ + BT + OUT,
      "No run of any cell ends in a panic (explicit panic, Logger.Panic*, index/slice out of range, nil dereference, nil-map write, failed type assertion, division by zero) and the representation invariant holds afterwards, under Inv, the V-* input assumptions, A-cc and the storage contract.")
 
@@ -201,8 +206,8 @@ prop("C19",
      "T1: for all inputs the outputs (error, hard/soft state, log, both message queues in order and field by field, progress, votes, read states, configuration) are equal under different map iteration orders (relational, decided by the solver); T2: reaching time, math/rand, crypto/rand (other than lockedRand.Intn), goroutines or channels from a RawNode entry point ends the check as a violation.")
 
 prop("C15",
-     H(LEAD_HBR[:0] + step('L', 'MsgSnapStatus'), ["S4/"]) + H(TICK[3:], ["W3/", "W6/"]) + H(RAW[:1] + RAW_ADV[:1], ["W5/"]) + H(APP[:1], ["W7/"]) + H(ACK[:1], ["G6/"]) + H(HUP[:1], ["W6/"]),
-     H(T(LEAD_HBR + step('L', 'MsgSnapStatus')), ["W1/", "S4/"]) + H(TICK, ["W3/", "W6/", "K5/"]) + H(RAW + RAW_ADV, ["W5/"]) + H(T(APP + HB), ["W7/"]) + H(ACK[:3], ["G6/"]) + H(T(HUP), ["W6/"]),
+     H(LEAD_HBR[:0] + step('L', 'MsgSnapStatus'), ["S4/"]) + H(TICK[3:], ["W3/", "W6/"]) + H(RAW_SYNC_Q[:1] + RAW_ADV[:1], ["W5/"]) + H(APP[:1], ["W7/"]) + H(ACK[:1], ["G6/"]) + H(HUP[:1], ["W6/"]),
+     H(T(LEAD_HBR + step('L', 'MsgSnapStatus')), ["W1/", "S4/"]) + H(TICK, ["W3/", "W6/", "K5/"]) + H(RAW_ALL + RAW_ADV, ["W5/"]) + H(T(APP + HB), ["W7/"]) + H(ACK[:3], ["G6/"]) + H(T(HUP), ["W6/"]),
      BQ + BT + OUT,
      "Enabling lemmas only (single node, one step or <= 2*ET ticks): W1 a heartbeat response un-pauses replication, W3 a stalled transfer is abandoned, W4 snapshot state is left, W5 a storage acknowledgement is always requested and trims the unstable log, W6 the election timer fires, W7 a stale leader is answered, W8 auto-leave is retried. Global convergence, the bound on election timeouts and the two-voter exception are NOT decided.",
      level="other")
